@@ -19,13 +19,14 @@
      Close / Exit link closed / process ends normally
      Crash        the process dies anywhere (in particular between InsertBegin and InsertEnd)   (environment)
      Corrupt / Remove / Truncate / Copy   a cache file is turned into garbage / deleted / cut short /
-                  copied to the other directory while no process runs                         (environment)
+                  copied over the one in the other directory -- while no process runs, while a TocCache
+                  object is idle, and between the start of a connection and a look-up (EnvStages)   (environment)
 
    Two physical directories "A" and "B"; every process chooses which (if any) is its read-only
    and which its read-write cache, so every combination occurs and a directory filled as rw by
    one process can be the ro of the next.
 
-   Bug = "none" is the code as read.  Other values are the breakages named in DESIGN 5/C11; each
+   Bug = "none" is the code as read ("toctou": a file test outside the try of fetch).  Other values are the breakages named in DESIGN 5/C11; each
    has a MC_TocCache_bug_*.cfg that TLC must refute. *)
 EXTENDS Naturals, Sequences, FiniteSets, TLC
 
@@ -123,10 +124,14 @@ Connect(lt, lc, pt, pc) ==
 Crc == dev[kind].crc
 
 Falsy == [k |-> "falsy", tab |-> <<>>]             \* fetch returns a value that `if (cache_data)` rejects
-Err == IF Bug = "escape" THEN [k |-> "raise", tab |-> <<>>] ELSE NoRet
+Raise == [k |-> "raise", tab |-> <<>>]
+Err == IF Bug = "escape" THEN Raise ELSE NoRet
+\* a listed name that no longer exists: open() raises inside the try -> miss.  Bug = "toctou": the file is
+\* looked at (os.path.getsize) outside the try, the FileNotFoundError leaves fetch()
+Gone == IF Bug \in {"escape", "toctou"} THEN Raise ELSE NoRet
 Decode(t) == IF Bug = "dropfield" THEN [i \in DOMAIN t |-> [t[i] EXCEPT !.ext = "-"]] ELSE t
 Load(x) ==
-    IF x \notin DOMAIN files THEN Err                    \* listed, deleted since: open() raises
+    IF x \notin DOMAIN files THEN Gone                   \* listed, deleted since
     ELSE LET f == files[x] IN
          IF f.st = "file" /\ f.cut = FLen
          THEN IF f.tab = <<>> THEN Falsy ELSE [k |-> "tab", tab |-> Decode(f.tab)]
@@ -224,40 +229,47 @@ Close ==
     /\ UNCHANGED <<ro, rw, files, known, roBase, nconn, ncrash, nenv>>
 
 \* ---------------------------------------------------------------- environment between processes
+\* The environment touches the cache files not only between processes but also within the life of one
+\* TocCache object: after its construction (the names are already in `known`), between two connections
+\* of the same Crazyflie object, and after a connection has started but before the checksum of a table is
+\* looked up (stage "fetch", for the log and for the parameter table).  From then on `known` and the
+\* directory contents may disagree: a listed name may be gone, replaced, emptied, cut or garbage.
+EnvStages == {"down", "idle", "fetch"}
+
 Corrupt(x, flavour) ==
-    /\ stage = "down" /\ nenv < MaxEnv
+    /\ stage \in EnvStages /\ nenv < MaxEnv
     /\ x \in DOMAIN files /\ files[x].st = "file" /\ files[x].cut = FLen
     /\ flavour \in {"garbage", "falsy"}
     /\ files' = [files EXCEPT ![x] = [st |-> flavour, tab |-> <<>>, cut |-> 0]]
     /\ nenv' = nenv + 1
-    /\ UNCHANGED <<ro, rw, known, stage, kind, dev, toc, ret, wdir, fsnap, obsL, obsP, roBase,
-                   nconn, ncrash>>
+    /\ roBase' = InDir(files', ro)                   \* not a write of the cache: the comparison base moves along
+    /\ UNCHANGED <<ro, rw, known, stage, kind, dev, toc, ret, wdir, fsnap, obsL, obsP, nconn, ncrash>>
 
 Remove(x) ==
-    /\ stage = "down" /\ nenv < MaxEnv
+    /\ stage \in EnvStages /\ nenv < MaxEnv
     /\ x \in DOMAIN files
     /\ files' = [y \in DOMAIN files \ {x} |-> files[y]]
     /\ nenv' = nenv + 1
-    /\ UNCHANGED <<ro, rw, known, stage, kind, dev, toc, ret, wdir, fsnap, obsL, obsP, roBase,
-                   nconn, ncrash>>
+    /\ roBase' = InDir(files', ro)                   \* not a write of the cache: the comparison base moves along
+    /\ UNCHANGED <<ro, rw, known, stage, kind, dev, toc, ret, wdir, fsnap, obsL, obsP, nconn, ncrash>>
 
 \* a complete file cut short from outside (same state as a crash during its write)
 Truncate(x, k) ==
-    /\ stage = "down" /\ nenv < MaxEnv
+    /\ stage \in EnvStages /\ nenv < MaxEnv
     /\ x \in DOMAIN files /\ files[x].st = "file" /\ files[x].cut = FLen /\ k \in 0..(FLen - 1)
     /\ files' = [files EXCEPT ![x].cut = k]
     /\ nenv' = nenv + 1
-    /\ UNCHANGED <<ro, rw, known, stage, kind, dev, toc, ret, wdir, fsnap, obsL, obsP, roBase,
-                   nconn, ncrash>>
+    /\ roBase' = InDir(files', ro)                   \* not a write of the cache: the comparison base moves along
+    /\ UNCHANGED <<ro, rw, known, stage, kind, dev, toc, ret, wdir, fsnap, obsL, obsP, nconn, ncrash>>
 
 \* a cache file is copied into the other directory (a distributed, pre-populated cache)
 Copy(x, d) ==
-    /\ stage = "down" /\ nenv < MaxEnv
+    /\ stage \in EnvStages /\ nenv < MaxEnv
     /\ x \in DOMAIN files /\ d \in Dirs /\ d # x[1]
     /\ files' = (<<d, x[2]>> :> files[x]) @@ files
     /\ nenv' = nenv + 1
-    /\ UNCHANGED <<ro, rw, known, stage, kind, dev, toc, ret, wdir, fsnap, obsL, obsP, roBase,
-                   nconn, ncrash>>
+    /\ roBase' = InDir(files', ro)                   \* not a write of the cache: the comparison base moves along
+    /\ UNCHANGED <<ro, rw, known, stage, kind, dev, toc, ret, wdir, fsnap, obsL, obsP, nconn, ncrash>>
 
 Next == \/ \E r, w \in Dirs \cup {NoDir} : Start(r, w, Listing(r) \o Listing(w))
         \/ \E lt \in LogTables, pt \in ParamTables, lc, pc \in Crcs : Connect(lt, lc, pt, pc)
